@@ -10,8 +10,33 @@ double num_of_id(long id)
 }
 static char *own_str(const char *s) { size_t n = strlen(s) + 1; char *p = (char*)al_raw(n); memcpy(p, s, n); return p; }
 
-static int vb_flagged;
+static int vb_flagged, vb_shared;
 cJSON *vb_build_flagged(const jv *v) { cJSON *t; vb_flagged = 1; t = vb_build(v); vb_flagged = 0; return t; }
+#define VB_POOL 512
+static struct { cJSON *owner; const jv *v; } vb_pool[VB_POOL]; static int vb_pool_n;
+cJSON *vb_build_shared(const jv *v) { cJSON *t; vb_flagged = 1; vb_shared = 1; t = vb_build(v); vb_flagged = 0; vb_shared = 0; return t; }
+int vb_pool_count(void) { return vb_pool_n; }
+cJSON *vb_pool_owner(int i) { return vb_pool[i].owner; }
+const jv *vb_pool_value(int i) { return vb_pool[i].v; }
+void vb_pool_release(void) { int i; for (i = vb_pool_n - 1; i >= 0; i--) cJSON_Delete(vb_pool[i].owner); vb_pool_n = 0; }
+static int min_first(const cJSON *o)
+{
+    const cJSON *c;
+    if (!o->child || !o->child->string) return 0;
+    for (c = o->child->next; c; c = c->next) if (!c->string || strcmp((const char*)o->child->string, (const char*)c->string) >= 0) return 0;
+    return 1;
+}
+/* c: a freshly built container (its key, if any, already set); returns the reference node that takes its place */
+static cJSON *share(cJSON *c, const jv *v)
+{
+    cJSON *r;
+    if (!vb_shared || vb_pool_n >= VB_POOL || !c->child) return c;
+    if ((c->type & 0xFF) == cJSON_Object ? !min_first(c) : (c->type & 0xFF) != cJSON_Array) return c;
+    r = (cJSON*)al_raw(sizeof(cJSON)); *r = *c; r->type |= cJSON_IsReference; r->next = r->prev = NULL;
+    c->string = NULL; c->type &= ~cJSON_StringIsConst;
+    vb_pool[vb_pool_n].owner = c; vb_pool[vb_pool_n].v = v; vb_pool_n++;
+    return r;
+}
 cJSON *vb_build(const jv *v)
 {
     cJSON *n; const char *t; size_t k; cJSON *prev = NULL;
@@ -35,6 +60,7 @@ cJSON *vb_build(const jv *v)
                 if (t[0] == 'a') c = vb_build(ms->e[k]);
                 else { c = vb_build(jv_at(ms->e[k], 1)); if (c) { if (vb_flagged) { c->string = cm_string(jv_bytes(jv_at(ms->e[k], 0), NULL)); c->type |= cJSON_StringIsConst; } else c->string = own_str(jv_bytes(jv_at(ms->e[k], 0), NULL)); } }
                 if (!c) continue;
+                c = share(c, t[0] == 'a' ? ms->e[k] : jv_at(ms->e[k], 1));
                 if (!prev) n->child = c; else { prev->next = c; c->prev = prev; }
                 prev = c;
             }
@@ -121,4 +147,40 @@ uint64_t vb_hash(const cJSON *t, int depth)
     if (t->valuestring) for (p = t->valuestring; *p; p++) MIX((unsigned char)*p);
     if (!(t->type & cJSON_IsReference)) for (c = t->child; c; c = c->next) MIX(vb_hash(c, depth + 1));
     return h;
+}
+
+int vb_truthy(int b, unsigned long salt)
+{
+    static const int T[] = { 1, 2, -1, 256, 1, (-2147483647 - 1), 4, 1 };
+    return b ? T[salt % (sizeof(T) / sizeof(T[0]))] : 0;
+}
+
+void vb_stale_keys(cJSON *t, int scheme)
+{
+    cJSON *c; int i = 0, n = 0, isarr;
+    if (!t || (t->type & cJSON_IsReference)) return;
+    isarr = (t->type & 0xFF) == cJSON_Array;
+    for (c = t->child; c; c = c->next) n++;
+    for (c = t->child; c; c = c->next, i++) {
+        if (isarr && !c->string) {
+            char name[32];
+            switch (scheme & 3) {
+                case 0: snprintf(name, sizeof(name), "k%d", i); break;
+                case 1: snprintf(name, sizeof(name), "k%d", n - 1 - i); break;
+                case 2: snprintf(name, sizeof(name), "%d", (i + 1) % (n > 1 ? n : 2)); break;
+                default: snprintf(name, sizeof(name), "%s", (i & 1) ? "value" : "a"); break;
+            }
+            c->string = own_str(name);
+        }
+        vb_stale_keys(c, scheme);
+    }
+}
+void vb_stale_clear(cJSON *t)
+{
+    cJSON *c;
+    if (!t || (t->type & cJSON_IsReference)) return;
+    for (c = t->child; c; c = c->next) {
+        if ((t->type & 0xFF) == cJSON_Array && c->string && !(c->type & cJSON_StringIsConst)) { al_free(c->string); c->string = NULL; }
+        vb_stale_clear(c);
+    }
 }
